@@ -208,6 +208,26 @@ struct Outcome {
     fingerprint: String,
 }
 
+/// File names and arguments are handled as text in plans and replay files; the marker `@E9@`
+/// stands for the single byte 0xE9 (a Latin-1 e-acute: a name that is not valid UTF-8) and is
+/// replaced where the text crosses into the operating system.
+fn os(s: &str) -> std::ffi::OsString {
+    use std::os::unix::ffi::OsStringExt;
+    let mut out = vec![];
+    let b = s.as_bytes();
+    let mut i = 0;
+    while i < b.len() {
+        if b[i..].starts_with(b"@E9@") {
+            out.push(0xE9);
+            i += 4;
+        } else {
+            out.push(b[i]);
+            i += 1;
+        }
+    }
+    std::ffi::OsString::from_vec(out)
+}
+
 fn run_cli(cfg: &Cfg, args: &[String], dir: &Path, timeout_s: u64) -> (Option<i32>, Vec<u8>, String, bool) {
     run_cli_env(cfg, args, dir, timeout_s, &[], false, None)
 }
@@ -234,7 +254,7 @@ fn run_cli_env(cfg: &Cfg, args: &[String], dir: &Path, timeout_s: u64, env: &[(&
         }
     }
     let mut child = cmd
-        .args(args)
+        .args(args.iter().map(|a| os(a)))
         .current_dir(dir)
         .env_clear()
         .env("PATH", "/usr/bin:/bin")
@@ -312,9 +332,9 @@ fn execute(plan: &Value, w: &World, cfg: &Cfg, slot: usize) -> Outcome {
     let oname = plan["output_name"].as_str().unwrap_or("out.json");
     let (out_path, out_arg) = match plan["output_form"].as_str() {
         _ if sink_full => (PathBuf::from("/dev/full"), "/dev/full".to_string()),
-        Some("rel") => (dir.join(oname), oname.to_string()),
-        Some("rel-sub") => (dir.join("sub").join(oname), format!("sub/../sub/{}", oname)),
-        _ => (dir.join(oname), dir.join(oname).display().to_string()),
+        Some("rel") => (dir.join(os(oname)), oname.to_string()),
+        Some("rel-sub") => (dir.join("sub").join(os(oname)), format!("sub/../sub/{}", oname)),
+        _ => (dir.join(os(oname)), dir.join(oname).display().to_string()),
     };
     let pre: Option<Vec<u8>> = match plan["output"].as_str() {
         Some("text") => Some(OLD_TEXT.to_vec()),
@@ -438,7 +458,7 @@ fn execute(plan: &Value, w: &World, cfg: &Cfg, slot: usize) -> Outcome {
     // files next to the output that were not there before
     let strays: Vec<String> = if sink_full { vec![] } else {
         let parent = out_path.parent().unwrap_or(&dir).to_path_buf();
-        std::fs::read_dir(&parent).map(|rd| rd.filter_map(|e| e.ok()).map(|e| e.file_name().to_string_lossy().to_string()).filter(|n| n != oname && n != "sub" && n != "real-target.dat" && !n.starts_with("written") && n != "A" && n != "B").collect()).unwrap_or_default()
+        std::fs::read_dir(&parent).map(|rd| rd.filter_map(|e| e.ok()).filter(|e| e.file_name() != os(oname)).map(|e| e.file_name().to_string_lossy().to_string()).filter(|n| n != "sub" && n != "real-target.dat" && !n.starts_with("written") && n != "A" && n != "B").collect()).unwrap_or_default()
     };
     let mut v: Vec<Violation> = vec![];
     let mut push = |class: &str, detail: String| v.push(Violation { class: class.to_string(), detail });
